@@ -21,6 +21,7 @@ type Check struct {
 	Prop       string
 	W          Weights
 	Nontrivial func(s *Sim) bool
+	Aborted    bool // a schedule blocked reproducibly: the run stops (each further one would cost the watchdog limit)
 	lines      []string
 	sums       []string
 	inputs     []string
@@ -47,7 +48,7 @@ func (k *Check) Exec(sc *Scenario, ch Chooser) *Sim {
 	first := s
 	for attempt := 0; attempt < 2; attempt++ {
 		k.C.Count("watchdog-retry")
-		s = sc.RunW(&ScriptChooser{Labels: labels}, 3*time.Minute)
+		s = sc.RunW(&ScriptChooser{Labels: labels}, 2*time.Minute)
 		if s.Lost == "" {
 			k.C.Note("watchdog fired once (%s) but the same schedule completed on retry: machine load, not a finding", first.Lost)
 			return s
@@ -57,6 +58,8 @@ func (k *Check) Exec(sc *Scenario, ch Chooser) *Sim {
 	k.C.Differ(in, "blocked: "+s.Lost, "the model expects the released thread to reach a scheduling point", "thread blocked in 3 of 3 executions of this schedule")
 	key := map[string]string{"C24": "not-returned", "C25": "blocked", "C26": "stranded"}[k.Prop]
 	k.C.Fail(key, in, s.Lost)
+	k.Aborted = true
+	k.C.Note("run stopped after the first reproducibly blocked schedule")
 	return nil
 }
 
@@ -81,7 +84,7 @@ func (k *Check) One(sc *Scenario, s *Sim) error {
 		}
 	}
 	for _, v := range s.Viol {
-		if v.Prop == k.Prop {
+		if v.Prop == k.Prop || v.Prop == "*" {
 			c.Fail(v.Key, in, v.Detail)
 		} else {
 			c.Count("violation-of-" + v.Prop + ":" + v.Key)
@@ -132,7 +135,7 @@ func (k *Check) RunDirected(ds []Directed) error {
 		if rep == 0 {
 			rep = 1
 		}
-		for i := 0; i < rep; i++ {
+		for i := 0; i < rep && !k.Aborted; i++ {
 			ch := &ScriptChooser{Labels: d.Script}
 			s := k.Exec(d.Sc, ch)
 			if ch.Missing != "" && s != nil {
@@ -151,7 +154,7 @@ func (k *Check) RunDirected(ds []Directed) error {
 // RunRandom executes n PRNG-chosen schedules over PRNG-chosen scenarios.
 func (k *Check) RunRandom(n int) error {
 	r := k.C.Rng
-	for i := 0; i < n; i++ {
+	for i := 0; i < n && !k.Aborted; i++ {
 		sc := GenScenario(r, k.W)
 		ch := &RandomChooser{R: r, EnvBias: hc.Pick(r, 15, 30, 50), StopPct: hc.Pick(r, 0, 0, 2, 5)}
 		if err := k.One(sc, k.Exec(sc, ch)); err != nil {
@@ -166,6 +169,9 @@ func (k *Check) RunRandom(n int) error {
 func (k *Check) RunDFS(scs []*Scenario, limit int) (bool, error) {
 	complete := true
 	for _, sc := range scs {
+		if k.Aborted {
+			return false, nil
+		}
 		ch := &DFSChooser{}
 		n := 0
 		for {
@@ -174,7 +180,7 @@ func (k *Check) RunDFS(scs []*Scenario, limit int) (bool, error) {
 			if err := k.One(sc, s); err != nil {
 				return false, err
 			}
-			if !ch.Next() {
+			if !ch.Next() || k.Aborted {
 				break
 			}
 			if n >= limit {
